@@ -478,6 +478,12 @@ def scale_raw(x, n_shift):
     if n_shift > 0 and x.dtype.kind in 'iu' and x.size > 0:
         if max(abs(int(np.max(x))), abs(int(np.min(x)))).bit_length() + n_shift >= 63:
             return np.array(x.astype(object) * 2**n_shift, dtype=object)
+    if n_shift < 0 and x.dtype.kind in 'iuO' and x.size > 0:
+        if max(abs(int(np.max(x))), abs(int(np.min(x)))).bit_length() > 53:
+            # fraction bits are dropped from codes of more than 53 bits: the exact quotients are kept (a float factor would round them to a
+            # double before the rounding of the destination is applied)
+            den = 2**(-n_shift)
+            return np.array([Fraction(int(v), den) for v in x.flatten()], dtype=object).reshape(x.shape)
     return x * 2**n_shift
 
 def round_object(x, method):
